@@ -1,6 +1,6 @@
 (* Cron engine — records for observed cases and the boolean checkers evaluated on them
    (cases files are written by go/harness/cmd/cron). *)
-From Ergo Require Import Common.Base Cron.Model Cron.Spec.
+From Ergo Require Import Common.Base Cron.Model Cron.Spec Cron.Grammar Cron.TickSpec.
 Local Open Scope Z_scope.
 
 (* ---- equality tests ---------------------------------------------------------------------------- *)
@@ -71,6 +71,22 @@ Definition corr_run (c : pcase) : bool :=
   match parse_spec (p_spec c) with
   | None => is_nil (p_samples c) || negb (p_ok c)
   | Some m => forallb (fun s => Bool.eqb (spec_run m (civil_of (sa_off s) (sa_unix s))) (sa_run s)) (p_samples c)
+  end.
+
+(* GrammarProofs.parse_print on the generator's tree: the canonical printing of a tree of the dialect
+   is parsed by the model to the masks the real parser produced for the generator's own rendering
+   (random white space, leading zeros) *)
+Definition corr_print (c : pcase) : bool :=
+  match p_ast c with
+  | Some a =>
+      if wf_spec a
+      then match parse_spec (print a) with
+           | Some m => p_ok c && zlist_eqb (map encode (sm_mhm m)) (p_mhm c) && zlist_eqb (map encode (sm_day m)) (p_day c)
+                       && zlist_eqb (map encode (sm_wday m)) (p_wday c)
+           | None => false
+           end
+      else true
+  | None => true
   end.
 
 (* the syntax tree the property speaks about: the generator's, else the lexed one *)
@@ -153,45 +169,37 @@ Fixpoint corr_tick_from (c : cron) (l : list tstep) : bool :=
   end.
 Definition corr_tick (c : tcase) : bool := corr_tick_from (mk_cron (tc_next c) [] []) (tc_steps c).
 
-(* the abstract scheduler driven by the operations that the implementation accepted *)
-Definition astep (jobs : list ajob) (s : tstep) : list ajob :=
-  if negb (t_rc s =? 0) then jobs else
-  match t_op s with
-  | OAdd name spec tbl dflt =>
-      match (match t_ast s with Some a => Some a | None => lex_spec spec end) with
-      | Some a => jobs ++ [mk_ajob name a (table_off tbl dflt) true]
-      | None => jobs
-      end
-  | ORemove name => filter (fun j => negb (a_name j =? name)) jobs
-  | OEnable name => map (fun j => if a_name j =? name then mk_ajob (a_name j) (a_spec j) (a_zone j) true else j) jobs
-  | ODisable name => map (fun j => if a_name j =? name then mk_ajob (a_name j) (a_spec j) (a_zone j) false else j) jobs
-  | OTick => jobs
-  end.
+(* the generator's syntax tree of an added spec is the tree the lexing phase computes *)
+Definition corr_tick_ast (c : tcase) : bool :=
+  forallb (fun s => match t_op s, t_ast s with
+                    | OAdd _ spec _ _, Some a =>
+                        match lex_spec spec with Some a' => cronspec_eqb a a' | None => negb (wf_spec a) end
+                    | _, _ => true
+                    end) (tc_steps c).
 
-(* result code the property demands: malformed specs rejected, duplicates refused, unknown names reported *)
-Definition expect_rc (jobs : list ajob) (s : tstep) : Z :=
-  let known n := existsb (fun j => a_name j =? n) jobs in
-  match t_op s with
-  | OAdd name spec _ _ =>
-      match lex_spec spec with
-      | Some a => if wf_spec a then (if known name then 1 else 0) else 3
-      | None => 3
-      end
-  | ORemove name | OEnable name | ODisable name => if known name then 0 else 2
-  | OTick => 0
-  end.
-
-Fixpoint spec_tick_from (next : Z) (jobs : list ajob) (l : list tstep) : bool :=
+(* the property (TickProofs.tick_histories, evaluated on what the implementation did): the observed
+   history -- result code of every API call; per tick its minute and the names of the popped
+   entries that are not disabled, i.e. the actions the tick starts -- is the history the abstract
+   scheduler demands (TickSpec.atrace: malformed specs rejected, duplicates refused, unknown names
+   reported; a tick starts exactly the present, enabled jobs whose spec denotes the minute, once each) *)
+Fixpoint obs_trace (next : Z) (l : list tstep) : list ev :=
   match l with
-  | [] => true
+  | [] => []
   | s :: tl =>
-      (t_rc s =? expect_rc jobs s) &&
-      (if is_tick (t_op s)
-       then zlist_eqb (sort (map fst (filter (fun e => negb (snd e)) (combine (t_names s) (t_dis s))))) (sort (due jobs next))
-       else true) &&
-      spec_tick_from (if is_tick (t_op s) then next + 60 else next) (astep jobs s) tl
+      if is_tick (t_op s)
+      then EFire next (map fst (filter (fun e => negb (snd e)) (combine (t_names s) (t_dis s)))) :: obs_trace (next + 60) tl
+      else ERc (t_rc s) :: obs_trace next tl
   end.
-Definition spec_tick (c : tcase) : bool := spec_tick_from (tc_next c) [] (tc_steps c).
+
+Definition ev_eqb (e e' : ev) : bool :=
+  match e, e' with
+  | ERc a, ERc b => a =? b
+  | EFire m l, EFire m' l' => (m =? m') && zlist_eqb (sort l) (sort l')
+  | _, _ => false
+  end.
+
+Definition spec_tick (c : tcase) : bool :=
+  list_eqb ev_eqb (obs_trace (tc_next c) (tc_steps c)) (atrace (tc_next c) [] (map t_op (tc_steps c))).
 
 Definition premise_tick (c : tcase) : bool :=
   existsb (fun s => is_tick (t_op s) && existsb negb (t_dis s)) (tc_steps c).
